@@ -83,8 +83,14 @@ CHECKS = {
  "C14": dict(
   cat="exploration", ref="DESIGN.md §4 C14",
   technique="proptest-generated configurations (recursive strategy over every key-producing action form, depth <= 3, disjoint output pools per (key, layer) cell so that an output identifies its origin) and press/release histories with injected OS repeat events, through the whole state machine; safety and completeness oracles on the simulated OS output; proptest shrinking",
-  text="Two physical keys carry generated actions on two layers (key, output chord, multi, tap-hold x3, lazy/eager tap-dance, one-shot, fork, switch, unmod, unshift, use-defsrc, transparent, nested up to depth 3); a while-held layer key, an unmod/unshift key or a sequence leader, physical lctl/lalt, optional defoverrides, a chords-v2 chord and v1 chord keys. Repeat events are injected for held keys at arbitrary points (also while a tap-hold is pending and in sequence mode). Safety: each repeat yields at most one output event, a press of a key that is down at the OS. Completeness: when nothing is pending and the layers have not changed since the press, a key holding some of its own outputs down gets a repeat for one of them, a non-modifier in preference to a modifier.",
+  text="Two physical keys carry generated actions on two layers (key, output chord, multi, tap-hold x5 (incl. the -timeout forms), lazy/eager tap-dance, one-shot, fork, switch, unmod, unshift, use-defsrc, transparent, nested up to depth 3); a while-held layer key, an unmod/unshift key or a sequence leader, physical lctl/lalt, optional defoverrides, a chords-v2 chord and v1 chord keys. Repeat events are injected for held keys at arbitrary points (also while a tap-hold is pending and in sequence mode). Safety: each repeat yields at most one output event, a press of a key that is down at the OS. Completeness: when nothing is pending and the layers have not changed since the press, a key holding some of its own outputs down gets a repeat for one of them, a non-modifier in preference to a modifier.",
   note="Completeness is only demanded where attribution is unambiguous (the key's own pool keys that went down since its press). Six defects were repaired with fix: commits (F21, F39-F43); F44 (key pressed during a hidden sequence mode) is a known finding."),
+
+ "C16": dict(
+  cat="exploration", ref="DESIGN.md §4 C16",
+  technique="metamorphic testing: configurations from the whole-grammar tape generator are rewritten on the harness's own s-expression tree with semantically neutral indirection (defalias, defvar incl. chained / concat / list values, deftemplate + template-expand / t! / if-equal, include, platform, deflayermap) at tape-chosen sites; both texts go through the real parser and state machine; proptest shrinking of the tape",
+  text="1-6 composed rewrites per case. Acceptance must agree (a quarter of the originals come from the acceptance-boundary profile, so rejected originals occur); when accepted, the Debug rendering of every layer cell, key outputs, mapped keys, overrides, sequence trie, options, virtual keys, switch timing, layer names and chords-v2 table must be identical, and three random histories must give identical timestamped output.",
+  note="Rewrite sites follow the documentation: variables only inside actions (not in template-expand arguments, whose text is compared before variables exist; not for the reverse-release-order flag), platform not nested, a new alias inside the same defalias goes right before the pair that uses it, new templates are defined in creation order."),
 
  "C17": dict(
   cat="exploration", ref="DESIGN.md §4 C17, Appendix A.4/D",
